@@ -392,7 +392,10 @@ impl Shared {
         let mut st = self.m.lock().unwrap();
         st.status[tid] = TStatus::Finished;
         st.finished += 1;
-        st.trace.push(TraceEv { tid, what: "finish", lock: 0, site: "", line: 0 });
+        if !st.abort {
+            // after an abort the threads free-run; their order is not part of the simulated history
+            st.trace.push(TraceEv { tid, what: "finish", lock: 0, site: "", line: 0 });
+        }
         st.last_progress = Instant::now();
         // a finished thread holds nothing (guards are dropped by now); be defensive anyway
         for l in st.locks.iter_mut() {
